@@ -50,6 +50,9 @@ type KeyMeta struct {
 	Type     int
 	Ser      []byte // the value's serialization
 	ExpireAt uint64
+	// Sound: (stream values) the Lean description passes StreamE.soundB, the verified test
+	// of the hypothesis `sound` of stream_roundtrip / full_sync_streams
+	Sound bool
 }
 
 type GenOut struct {
@@ -86,7 +89,8 @@ func Encode(descs []string) ([]GenOut, error) {
 			db, _ := strconv.Atoi(f[2])
 			tp, _ := strconv.Atoi(f[4])
 			ex, _ := strconv.ParseUint(f[6], 10, 64)
-			outs[i].Keys = append(outs[i].Keys, KeyMeta{DB: db, Key: unhx(f[3]), Type: tp, Ser: unhx(f[5]), ExpireAt: ex})
+			outs[i].Keys = append(outs[i].Keys, KeyMeta{DB: db, Key: unhx(f[3]), Type: tp, Ser: unhx(f[5]), ExpireAt: ex,
+				Sound: len(f) > 7 && f[7] == "sound"})
 		case "bad-desc":
 			outs[i].Bad = true
 		default:
